@@ -26,22 +26,11 @@ Proof.
   apply andb_true_iff in H. destruct H as [H1 H2]. apply Z.leb_le in H1, H2. lia.
 Qed.
 
-Lemma as_i32_small : forall z, (0 <= z < 2147483648)%Z -> as_i32 z = Some z.
-Proof.
-  intros z H. unfold as_i32.
-  destruct (Z.leb_spec (-2147483648) z); [|lia]. destruct (Z.ltb_spec z 2147483648); [|lia]. reflexivity.
-Qed.
-Lemma as_i32_some : forall z w, as_i32 z = Some w -> w = z /\ (-2147483648 <= z < 2147483648)%Z.
-Proof.
-  intros z w. unfold as_i32.
-  destruct (Z.leb_spec (-2147483648) z); simpl; [|discriminate].
-  destruct (Z.ltb_spec z 2147483648); [|discriminate]. intros Hs. injection Hs as <-. split; [reflexivity|lia].
-Qed.
-Lemma i32_as_u32_small : forall z, (0 <= z < 2147483648)%Z -> i32_as_u32 z = Z.to_N z.
-Proof. intros z H. unfold i32_as_u32. rewrite Z.mod_small by lia. reflexivity. Qed.
+Lemma i64_as_u32_small : forall z, (0 <= z < 4294967296)%Z -> i64_as_u32 z = Z.to_N z.
+Proof. intros z H. unfold i64_as_u32. rewrite Z.mod_small by lia. reflexivity. Qed.
 
 Lemma decode_max_at : forall k rows,
-  N.ltb k 2147483648 = true -> rows_within k rows = true ->
+  N.ltb k 4294967296 = true -> rows_within k rows = true ->
   (N.eqb k 0 || has_version (Z.of_N k) rows)%bool = true ->
   decode_version (max_version rows) = k.
 Proof.
@@ -53,36 +42,61 @@ Proof.
     { apply orb_true_iff in Hh. destruct Hh as [H0|Hh].
       - apply N.eqb_eq in H0. subst k. simpl in Hm. lia.
       - destruct (has_version_In _ _ Hh) as [id' Hin]. specialize (Hle _ Hin). simpl in Hle. lia. }
-    unfold decode_version. rewrite as_i32_small by lia. rewrite i32_as_u32_small by lia. apply N2Z.id.
+    unfold decode_version. rewrite i64_as_u32_small by lia. apply N2Z.id.
   - apply max_version_none in E. subst rows. simpl in Hh. rewrite orb_false_r in Hh. apply N.eqb_eq in Hh. subst. reflexivity.
 Qed.
 
 Lemma ids_get_fold : forall rows acc v x,
-  ids_get v (fold_left (fun acc r => match as_i32 (fst r) with Some w => (i32_as_u32 w, snd r) :: acc | None => acc end) rows acc) = Some x ->
-  ids_get v acc = Some x \/ exists r w, In r rows /\ as_i32 (fst r) = Some w /\ i32_as_u32 w = v.
+  ids_get v (fold_left (fun acc r => (i64_as_u32 (fst r), snd r) :: acc) rows acc) = Some x ->
+  ids_get v acc = Some x \/ exists r, In r rows /\ i64_as_u32 (fst r) = v /\ snd r = x.
 Proof.
   induction rows as [|a rows IH]; intros acc v x H; simpl in H; [left; exact H|].
-  destruct (IH _ _ _ H) as [H1|[r [w [Hr [Ha Hu]]]]].
-  - destruct (as_i32 (fst a)) as [w|] eqn:E; [|left; exact H1].
-    simpl in H1. destruct (N.eqb_spec v (i32_as_u32 w)).
-    + right. exists a, w. split; [left; reflexivity|]. split; [exact E|symmetry; assumption].
+  destruct (IH _ _ _ H) as [H1|[r [Hr [Hu Hx]]]].
+  - simpl in H1. destruct (N.eqb_spec v (i64_as_u32 (fst a))).
+    + right. exists a. injection H1 as <-. split; [left; reflexivity|]. split; [symmetry; assumption|reflexivity].
     + left. exact H1.
-  - right. exists r, w. split; [right; exact Hr|]. split; assumption.
+  - right. exists r. split; [right; exact Hr|]. split; assumption.
 Qed.
 
 Lemma ids_get_decode : forall rows v x, ids_get v (decode_ids rows) = Some x ->
-  exists r w, In r rows /\ as_i32 (fst r) = Some w /\ i32_as_u32 w = v.
+  exists r, In r rows /\ i64_as_u32 (fst r) = v /\ snd r = x.
 Proof. intros rows v x H. destruct (ids_get_fold _ _ _ _ H) as [H1|H1]; [discriminate|exact H1]. Qed.
 
+(* lookups that find nothing newer than k *)
 Lemma id_check_none_at : forall k rows m,
-  rows_within k rows = true -> N.ltb k (m_version m) = true -> id_check (decode_ids rows) m = None.
+  N.ltb k 4294967296 = true -> rows_within k rows = true -> N.ltb k (m_version m) = true ->
+  id_check (decode_ids rows) m = None.
 Proof.
-  intros k rows m Hw Hlt. unfold id_check.
+  intros k rows m Hk Hw Hlt. unfold id_check.
   destruct (ids_get (m_version m) (decode_ids rows)) as [x|] eqn:E; [|reflexivity].
-  exfalso. destruct (ids_get_decode _ _ _ E) as [r [w [Hr [Ha Hu]]]].
-  destruct (as_i32_some _ _ Ha) as [-> Hrange].
-  pose proof (rows_within_In _ _ _ Hw Hr) as Hb.
-  rewrite i32_as_u32_small in Hu by lia. apply N.ltb_lt in Hlt. lia.
+  exfalso. destruct (ids_get_decode _ _ _ E) as [r [Hr [Hu _]]].
+  pose proof (rows_within_In _ _ _ Hw Hr) as Hb. apply N.ltb_lt in Hk, Hlt.
+  rewrite i64_as_u32_small in Hu by lia. lia.
+Qed.
+
+(* recorded ids that agree with the compiled ones never trip the comparison *)
+Lemma conflict_free : forall ms d m r,
+  id_conflict ms d = false -> In m ms -> In r (db_rows (bootstrap d)) -> conflicts m r = false.
+Proof.
+  intros ms d m r H Hm Hr. unfold id_conflict in H.
+  destruct (conflicts m r) eqn:E; [|reflexivity]. exfalso.
+  assert (Ht : existsb (fun m => existsb (conflicts m) (db_rows (bootstrap d))) ms = true).
+  { apply existsb_exists. exists m. split; [exact Hm|]. apply existsb_exists. exists r. split; assumption. }
+  rewrite Ht in H. discriminate.
+Qed.
+
+Lemma id_check_none_free : forall k rows m,
+  N.ltb k 4294967296 = true -> rows_within k rows = true ->
+  (forall r, In r rows -> conflicts m r = false) -> id_check (decode_ids rows) m = None.
+Proof.
+  intros k rows m Hk Hw Hfree. unfold id_check.
+  destruct (ids_get (m_version m) (decode_ids rows)) as [x|] eqn:E; [|reflexivity].
+  destruct (ids_get_decode _ _ _ E) as [r [Hr [Hu Hx]]].
+  pose proof (rows_within_In _ _ _ Hw Hr) as Hb. apply N.ltb_lt in Hk.
+  rewrite i64_as_u32_small in Hu by lia.
+  specialize (Hfree r Hr). unfold conflicts in Hfree. subst x.
+  assert (Hv : Z.eqb (fst r) (Z.of_N (m_version m)) = true) by (apply Z.eqb_eq; lia).
+  rewrite Hv in Hfree. simpl in Hfree. rewrite Hfree. reflexivity.
 Qed.
 
 (* ---------- the two statements outside the transaction ---------- *)
@@ -112,7 +126,7 @@ Proof.
 Qed.
 
 Lemma at_version_parts : forall k d, at_version k d = true ->
-  N.ltb k 2147483648 = true /\ rows_within k (db_rows d) = true /\
+  N.ltb k 4294967296 = true /\ rows_within k (db_rows d) = true /\
   (N.eqb k 0 || has_version (Z.of_N k) (db_rows d))%bool = true.
 Proof.
   intros k d H. unfold at_version in H. apply andb_true_iff in H. destruct H as [H H3].
@@ -128,6 +142,8 @@ Qed.
 Lemma at_version_create : forall k d, at_version k d = true -> at_version k (sql_create_vt d) = true.
 Proof. intros k [[t|] ap] H; [exact H|]. unfold at_version in *. simpl in *. exact H. Qed.
 
+Lemma has_id_bootstrap_fix0 : forall c rows, d_vt c = Some (mkVt true rows) -> bootstrap c = c.
+Proof. intros [[[[] r]|] ap] rows H; simpl in H; try discriminate. reflexivity. Qed.
 Lemma bootstrap_create : forall d, bootstrap (sql_create_vt d) = bootstrap d.
 Proof. intros [[[[] rows]|] ap]; reflexivity. Qed.
 Lemma bootstrap_idem : forall d, bootstrap (bootstrap d) = bootstrap d.
@@ -165,7 +181,7 @@ Definition block_evs (o : opts) (l : list mig) : list ev :=
 
 Lemma plan_run : forall o ver ids ms b rows i c,
   ascending ms = true ->
-  (forall m, In m ms -> N.ltb ver (m_version m) = true -> id_check ids m = None) ->
+  (forall m, In m ms -> id_check ids m = None) ->
   (forall m r, In m ms -> N.ltb ver (m_version m) = true -> In r rows -> (fst r < Z.of_N (m_version m))%Z) ->
   i_res i = None -> i_buf i = Some b -> d_vt b = Some (mkVt true rows) ->
   exists n,
@@ -183,16 +199,16 @@ Proof.
       rewrite !app_nil_r. reflexivity.
     + eexists. reflexivity.
   - simpl plan. unfold pending; simpl filter. fold (pending ver ms).
+    rewrite (Hid m (or_introl eq_refl)).
     destruct (N.ltb ver (m_version m)) eqn:Ever.
-    + rewrite (Hid m (or_introl eq_refl) Ever).
-      rewrite run_list_app. rewrite (exec_stmts o _ c i b Hr Hb).
+    + rewrite run_list_app. rewrite (exec_stmts o _ c i b Hr Hb).
       rewrite run_list_cons_running by exact Hr.
       erewrite exec_IInsert_ok; [ | reflexivity | simpl; exact Hvt | intros r Hin; apply (Hlt m r (or_introl eq_refl) Ever Hin) ].
       match goal with |- context [run_list _ _ _ _ (c, ?i')] => set (i1 := i') end.
       destruct (IH (mkDb (Some (mkVt true (rows ++ [(Z.of_N (m_version m), m_id m)]))) (d_applied b ++ stmts_of o m))
                    (rows ++ [(Z.of_N (m_version m), m_id m)]) i1 c) as [n Hn].
       * eapply ascending_tail; exact Hasc.
-      * intros m' Hin Hv. apply Hid; [right; exact Hin | exact Hv].
+      * intros m' Hin. apply Hid. right. exact Hin.
       * intros m' r Hin Hv Hr'. apply in_app_or in Hr'. destruct Hr' as [Hr'|[<-|[]]].
         -- apply (Hlt m' r); [right; exact Hin | exact Hv | exact Hr'].
         -- simpl. pose proof (ascending_head_lt _ _ _ Hasc Hin). lia.
@@ -209,7 +225,7 @@ Proof.
            rewrite !map_app. simpl. rewrite <- !app_assoc. simpl. reflexivity.
     + apply IH; auto.
       * eapply ascending_tail; exact Hasc.
-      * intros m' Hin Hv. apply Hid; [right; exact Hin | exact Hv].
+      * intros m' Hin. apply Hid. right. exact Hin.
       * intros m' r Hin Hv Hr'. apply (Hlt m' r); [right; exact Hin | exact Hv | exact Hr'].
 Qed.
 
@@ -217,19 +233,29 @@ Qed.
 Lemma pending_lt : forall k ms m, In m (pending k ms) -> In m ms /\ N.ltb k (m_version m) = true.
 Proof. intros k ms m H. unfold pending in H. apply filter_In in H. exact H. Qed.
 
+Lemma free_id_checks : forall ms k d rows,
+  at_version k d = true -> bootstrap d = mkDb (Some (mkVt true rows)) (d_applied d) -> rows_within k rows = true ->
+  id_conflict ms d = false -> forall m, In m ms -> id_check (decode_ids rows) m = None.
+Proof.
+  intros ms k d rows Hat Hb Hw Hfree m Hm.
+  destruct (at_version_parts _ _ Hat) as [H1 _].
+  apply (id_check_none_free k rows m H1 Hw). intros r Hr.
+  apply (conflict_free ms d m r Hfree Hm). rewrite Hb. exact Hr.
+Qed.
+
 Theorem run_from_k : forall o ms k d,
-  ascending ms = true -> at_version k d = true ->
+  ascending ms = true -> at_version k d = true -> id_conflict ms d = false ->
   fst (run [] o ms d) = advanced o (pending k ms) d /\
   i_res (snd (run [] o ms d)) = Some ROk /\
   i_log (snd (run [] o ms d)) = prelude_log o d ++ block_evs o (pending k ms) ++ [ECommit true].
 Proof.
-  intros o ms k d Hasc Hat. unfold run, run_from.
+  intros o ms k d Hasc Hat Hfree. unfold run, run_from.
   destruct (prelude_ok o k d Hat) as [rows [Hb [Hw Hp]]]. rewrite Hp. simpl snd. cbv beta iota.
   simpl i_res. cbv iota. simpl i_ver. simpl i_ids.
   destruct (plan_run o k (decode_ids rows) ms (bootstrap d) rows
               (mkInst None true (Some (bootstrap d)) Shared k (decode_ids rows) (prelude_log o d) 5) (bootstrap d)) as [n Hn].
   - exact Hasc.
-  - intros m _ Hv. eapply id_check_none_at; eauto.
+  - exact (free_id_checks ms k d rows Hat Hb Hw Hfree).
   - intros m r _ Hv Hr. pose proof (rows_within_In _ _ _ Hw Hr). apply N.ltb_lt in Hv. lia.
   - reflexivity.
   - reflexivity.
@@ -252,10 +278,10 @@ Proof. reflexivity. Qed.
 
 (* exactly the statements of the migrations with version > k, ascending, each followed by its version row *)
 Corollary run_from_k_statements : forall o ms k d,
-  ascending ms = true -> at_version k d = true ->
+  ascending ms = true -> at_version k d = true -> id_conflict ms d = false ->
   txn_execs (i_log (snd (run [] o ms d))) = List.concat (map (block_sqls o) (pending k ms)).
 Proof.
-  intros o ms k d Ha Hk. destruct (run_from_k o ms k d Ha Hk) as [_ [_ Hl]]. rewrite Hl.
+  intros o ms k d Ha Hk Hf. destruct (run_from_k o ms k d Ha Hk Hf) as [_ [_ Hl]]. rewrite Hl.
   rewrite !txn_execs_app, txn_execs_prelude, txn_execs_block_evs. simpl. rewrite app_nil_r. reflexivity.
 Qed.
 
@@ -280,7 +306,7 @@ Proof.
     + left. reflexivity.
   - right. exists m. split; [right; exact Hin|]. split; [exact Hv|lia].
 Qed.
-Lemma top_i32 : forall ms k, (k < 2147483648)%N -> versions_i32 ms = true -> (top k ms < 2147483648)%N.
+Lemma top_u32 : forall ms k, (k < 4294967296)%N -> versions_u32 ms = true -> (top k ms < 4294967296)%N.
 Proof.
   induction ms as [|a ms IH]; intros k Hk H; simpl; [exact Hk|].
   simpl in H. apply andb_true_iff in H. destruct H as [H1 H2]. apply N.ltb_lt in H1.
@@ -305,13 +331,13 @@ Proof.
 Qed.
 
 Lemma at_version_advanced : forall o ms k d,
-  at_version k d = true -> versions_i32 ms = true ->
+  at_version k d = true -> versions_u32 ms = true ->
   at_version (top k ms) (advanced o (pending k ms) d) = true.
 Proof.
   intros o ms k d Hat Hi. destruct (at_version_parts _ _ Hat) as [H1 [H2 H3]].
   destruct (bootstrap_shape d) as [rows [Hb Hm]].
   unfold at_version, advanced. rewrite Hb. unfold db_rows; simpl.
-  apply N.ltb_lt in H1. pose proof (top_i32 ms k H1 Hi) as Ht. pose proof (top_ge ms k) as Hge.
+  apply N.ltb_lt in H1. pose proof (top_u32 ms k H1 Hi) as Ht. pose proof (top_ge ms k) as Hge.
   apply andb_true_iff. split; [apply andb_true_iff; split|].
   - apply N.ltb_lt. exact Ht.
   - unfold rows_within. rewrite forallb_forall. intros r Hr. apply in_app_or in Hr. destruct Hr as [Hr|Hr].
@@ -332,34 +358,84 @@ Qed.
 Lemma advanced_nil_fix : forall o rows ap, advanced o [] (mkDb (Some (mkVt true rows)) ap) = mkDb (Some (mkVt true rows)) ap.
 Proof. intros. unfold advanced, bootstrap, db_rows, stmts_all; simpl. rewrite !app_nil_r. reflexivity. Qed.
 
+(* ---------- recorded ids that agree with the compiled ones stay that way ---------- *)
+Lemma ascending_version_inj : forall ms a b,
+  ascending ms = true -> In a ms -> In b ms -> m_version a = m_version b -> a = b.
+Proof.
+  induction ms as [|m ms IH]; intros a b Ha Hia Hib Hv; [destruct Hia|].
+  pose proof (ascending_tail _ _ Ha) as Ht.
+  destruct Hia as [<-|Hia], Hib as [<-|Hib].
+  - reflexivity.
+  - pose proof (ascending_head_lt _ _ _ Ha Hib). lia.
+  - pose proof (ascending_head_lt _ _ _ Ha Hia). lia.
+  - apply IH; assumption.
+Qed.
+
+Lemma id_conflict_false_intro : forall ms d,
+  (forall m r, In m ms -> In r (db_rows (bootstrap d)) -> conflicts m r = false) -> id_conflict ms d = false.
+Proof.
+  intros ms d H. unfold id_conflict. destruct (existsb _ ms) eqn:E; [|reflexivity].
+  apply existsb_exists in E. destruct E as [m [Hm E]]. apply existsb_exists in E. destruct E as [r [Hr E]].
+  rewrite (H m r Hm Hr) in E. discriminate.
+Qed.
+
+Lemma id_conflict_create : forall ms d, id_conflict ms (sql_create_vt d) = id_conflict ms d.
+Proof. intros. unfold id_conflict. rewrite bootstrap_create. reflexivity. Qed.
+Lemma id_conflict_bootstrap : forall ms d, id_conflict ms (bootstrap d) = id_conflict ms d.
+Proof. intros. unfold id_conflict. rewrite bootstrap_idem. reflexivity. Qed.
+
+Lemma no_conflict_advanced_sub : forall o ms l d,
+  ascending ms = true -> (forall m', In m' l -> In m' ms) -> id_conflict ms d = false ->
+  id_conflict ms (advanced o l d) = false.
+Proof.
+  intros o ms l d Ha Hsub Hf. apply id_conflict_false_intro. intros m r Hm Hr.
+  unfold advanced, bootstrap, db_rows in Hr. simpl in Hr. fold (bootstrap d) in Hr.
+  apply in_app_or in Hr. destruct Hr as [Hr|Hr].
+  - apply (conflict_free ms d m r Hf Hm). exact Hr.
+  - unfold rows_of in Hr. apply in_map_iff in Hr. destruct Hr as [m' [<- Hin]].
+    unfold conflicts. simpl. destruct (Z.eqb_spec (Z.of_N (m_version m')) (Z.of_N (m_version m))) as [E|E]; [|reflexivity].
+    assert (m' = m) as -> by (apply (ascending_version_inj ms); auto; lia).
+    rewrite String.eqb_refl. simpl. rewrite !andb_false_r. reflexivity.
+Qed.
+
+Lemma no_conflict_advanced : forall o ms k d,
+  ascending ms = true -> id_conflict ms d = false -> id_conflict ms (advanced o (pending k ms) d) = false.
+Proof.
+  intros o ms k d Ha Hf. apply no_conflict_advanced_sub; [exact Ha| |exact Hf].
+  intros m' Hin. apply (pending_lt _ _ _ Hin).
+Qed.
+
 Theorem run_idempotent : forall o ms k d,
-  ascending ms = true -> versions_i32 ms = true -> at_version k d = true ->
+  ascending ms = true -> versions_u32 ms = true -> at_version k d = true -> id_conflict ms d = false ->
   let d1 := fst (run [] o ms d) in
   fst (run [] o ms d1) = d1 /\ i_res (snd (run [] o ms d1)) = Some ROk /\ txn_execs (i_log (snd (run [] o ms d1))) = [].
 Proof.
-  intros o ms k d Ha Hi Hk d1.
-  destruct (run_from_k o ms k d Ha Hk) as [Hd _]. fold d1 in Hd.
+  intros o ms k d Ha Hi Hk Hf d1.
+  destruct (run_from_k o ms k d Ha Hk Hf) as [Hd _]. fold d1 in Hd.
   assert (Hat : at_version (top k ms) d1 = true) by (rewrite Hd; apply at_version_advanced; assumption).
-  destruct (run_from_k o ms (top k ms) d1 Ha Hat) as [H1 [H2 H3]].
+  assert (Hf1 : id_conflict ms d1 = false) by (rewrite Hd; apply no_conflict_advanced; assumption).
+  destruct (run_from_k o ms (top k ms) d1 Ha Hat Hf1) as [H1 [H2 H3]].
   rewrite pending_top in H1, H3. split; [|split].
   - rewrite H1. rewrite Hd. unfold advanced at 2. apply advanced_nil_fix.
   - exact H2.
   - rewrite H3. reflexivity.
 Qed.
 
-(* ---------- the id comparison (lib.rs:153-162) ---------- *)
+(* ---------- the id comparison (lib.rs:151-163 / 196-208) ---------- *)
 Lemma plan_no_fail : forall o ver ids ms,
-  (forall m, In m ms -> N.ltb ver (m_version m) = true -> id_check ids m = None) ->
+  (forall m, In m ms -> id_check ids m = None) ->
   forall x, In x (plan o ver ids ms) -> forall e, x <> IFail e.
 Proof.
   intros o ver ids ms. induction ms as [|m ms IH]; intros H x Hx e.
   - simpl in Hx. destruct Hx as [<-|[]]. discriminate.
-  - simpl in Hx. destruct (N.ltb ver (m_version m)) eqn:Ev.
-    + rewrite (H m (or_introl eq_refl) Ev) in Hx. apply in_app_or in Hx. destruct Hx as [Hx|[<-|Hx]].
+  - simpl in Hx. rewrite (H m (or_introl eq_refl)) in Hx.
+    assert (H' : forall m', In m' ms -> id_check ids m' = None) by (intros m' Hm'; apply H; right; exact Hm').
+    destruct (N.ltb ver (m_version m)) eqn:Ev.
+    + apply in_app_or in Hx. destruct Hx as [Hx|[<-|Hx]].
       * apply in_map_iff in Hx. destruct Hx as [s [<- _]]. discriminate.
       * discriminate.
-      * apply IH; [|exact Hx]. intros m' Hm'. apply H. right. exact Hm'.
-    + apply IH; [|exact Hx]. intros m' Hm'. apply H. right. exact Hm'.
+      * apply IH; [exact H'|exact Hx].
+    + apply IH; [exact H'|exact Hx].
 Qed.
 
 Lemma run_list_res_plain : forall F o oth l ci,
@@ -493,36 +569,136 @@ Proof.
 Qed.
 Local Transparent exec.
 
-Lemma max_decode_ge : forall rows r,
-  (forall x, In x rows -> (0 <= fst x < 2147483648)%Z) -> In r rows ->
-  (Z.to_N (fst r) <= decode_version (max_version rows))%N.
+
+(* whatever fails by injection: recorded ids that agree with the compiled ones never produce IdMismatch *)
+Theorem id_mismatch_only_on_conflict : forall F o ms k d v e f,
+  at_version k d = true -> id_conflict ms d = false ->
+  i_res (snd (run F o ms d)) <> Some (RErr (IdMismatch v e f)).
 Proof.
-  intros rows r Hall Hr. destruct (max_version rows) as [m|] eqn:E.
-  - destruct (max_version_spec _ _ E) as [[id Hid] Hle]. pose proof (Hall _ Hid) as Hm. simpl in Hm.
-    specialize (Hle _ Hr). pose proof (Hall _ Hr).
-    unfold decode_version. rewrite as_i32_small by lia. rewrite i32_as_u32_small by lia. lia.
-  - apply max_version_none in E. subst. destruct Hr.
+  intros F o ms k d v e f Hat Hfree. apply res_plain_not_mismatch.
+  unfold run, run_from. destruct (prelude_gen F o d) as [Hp [Hdb Hn]].
+  destruct (i_res (snd (run_list F o [] prelude (d, inst0)))) eqn:E; [rewrite E; exact Hp|].
+  destruct (Hn eq_refl) as [rows [Hm [Hv [Hi [_ Hvt]]]]].
+  apply run_list_res_plain; [|rewrite E; left; reflexivity].
+  apply plan_no_fail. intros m Hin. rewrite Hi.
+  destruct (at_version_parts _ _ Hat) as [H1 [H2 _]].
+  apply (id_check_none_free k rows m H1); [rewrite (rows_within_map_fst k _ _ Hm); exact H2|].
+  intros r Hr. apply (conflict_free ms d m r Hfree Hin).
+  (* the rows read are those of bootstrap d *)
+  destruct Hdb as [Hc|[Hc|Hc]]; rewrite Hc in Hvt.
+  - rewrite (has_id_bootstrap_fix0 d rows Hvt). unfold db_rows. rewrite Hvt. exact Hr.
+  - rewrite <- bootstrap_create. rewrite (has_id_bootstrap_fix0 _ rows Hvt). unfold db_rows. rewrite Hvt. exact Hr.
+  - unfold db_rows. rewrite Hvt. exact Hr.
 Qed.
 
-Theorem id_check_unreachable : forall F o ms d v e f,
-  rows_i32 d = true -> i_res (snd (run F o ms d)) <> Some (RErr (IdMismatch v e f)).
+(* ---------- a recorded id that differs from the compiled one IS reported (fix 9bf06ee) ---------- *)
+Lemma has_version_false_inv : forall v rows r, has_version v rows = false -> In r rows -> fst r <> v.
 Proof.
-  intros F o ms d v e f Hrows. apply res_plain_not_mismatch.
-  unfold run, run_from. destruct (prelude_gen F o d) as [Hp [_ Hn]].
-  destruct (i_res (snd (run_list F o [] prelude (d, inst0)))) eqn:E; [rewrite E; exact Hp|].
-  destruct (Hn eq_refl) as [rows [Hm [Hv [Hi _]]]].
-  apply run_list_res_plain; [|rewrite E; left; reflexivity].
-  apply plan_no_fail. intros m _ Hlt. rewrite Hv, Hi in *. unfold id_check.
-  destruct (ids_get (m_version m) (decode_ids rows)) as [x|] eqn:Eg; [|reflexivity].
-  exfalso. destruct (ids_get_decode _ _ _ Eg) as [r [w [Hr [Ha Hu]]]].
-  destruct (as_i32_some _ _ Ha) as [-> _].
-  assert (Hall : forall z, In z rows -> (0 <= fst z < 2147483648)%Z).
-  { intros z Hx. unfold rows_i32 in Hrows. rewrite forallb_forall in Hrows.
-    assert (Hf : In (fst z) (map fst (db_rows d))) by (rewrite <- Hm; apply in_map; exact Hx).
-    apply in_map_iff in Hf. destruct Hf as [y [Hy Hin]]. specialize (Hrows y Hin).
-    apply andb_true_iff in Hrows. destruct Hrows as [A B]. apply Z.leb_le in A. apply Z.ltb_lt in B. rewrite <- Hy. lia. }
-  pose proof (max_decode_ge rows r Hall Hr) as Hge. pose proof (Hall _ Hr).
-  rewrite i32_as_u32_small in Hu by lia. apply N.ltb_lt in Hlt. lia.
+  intros v rows. induction rows as [|[w j] rows IH]; intros r H Hr; [destruct Hr|].
+  simpl in H. apply orb_false_iff in H. destruct H as [H1 H2]. apply Z.eqb_neq in H1.
+  destruct Hr as [<-|Hr]; [simpl; intros E; apply H1; symmetry; exact E|apply IH; assumption].
+Qed.
+
+Lemma ids_get_fold_none : forall rows acc v,
+  (forall r, In r rows -> i64_as_u32 (fst r) <> v) ->
+  ids_get v (fold_left (fun acc r => (i64_as_u32 (fst r), snd r) :: acc) rows acc) = ids_get v acc.
+Proof.
+  induction rows as [|a rows IH]; intros acc v H; simpl; [reflexivity|].
+  rewrite IH by (intros r Hr; apply H; right; exact Hr). simpl.
+  destruct (N.eqb_spec v (i64_as_u32 (fst a))) as [E|E]; [|reflexivity].
+  exfalso. apply (H a (or_introl eq_refl)). symmetry. exact E.
+Qed.
+
+Lemma ids_get_fold_in : forall rows acc z x,
+  versions_distinct rows = true -> (forall r, In r rows -> (0 <= fst r < 4294967296)%Z) -> In (z, x) rows ->
+  ids_get (Z.to_N z) (fold_left (fun acc r => (i64_as_u32 (fst r), snd r) :: acc) rows acc) = Some x.
+Proof.
+  induction rows as [|[w j] rows IH]; intros acc z x Hd Hrange Hin; [destruct Hin|].
+  simpl in Hd. apply andb_true_iff in Hd. destruct Hd as [Hd1 Hd2]. apply negb_true_iff in Hd1.
+  assert (Hrange' : forall r, In r rows -> (0 <= fst r < 4294967296)%Z) by (intros r Hr; apply Hrange; right; exact Hr).
+  simpl. destruct Hin as [E|Hin].
+  - injection E as -> ->. rewrite ids_get_fold_none.
+    + simpl. pose proof (Hrange (z, x) (or_introl eq_refl)) as Hz. simpl in Hz.
+      rewrite i64_as_u32_small by lia. rewrite N.eqb_refl. reflexivity.
+    + intros r Hr. pose proof (has_version_false_inv _ _ _ Hd1 Hr). pose proof (Hrange' r Hr).
+      pose proof (Hrange (z, x) (or_introl eq_refl)) as Hz. simpl in Hz.
+      rewrite i64_as_u32_small by lia. lia.
+  - apply IH; assumption.
+Qed.
+
+Lemma conflicts_true : forall m r, conflicts m r = true ->
+  fst r = Z.of_N (m_version m) /\ (nonempty (m_id m) && nonempty (snd r) && negb (String.eqb (snd r) (m_id m)))%bool = true.
+Proof.
+  intros m r H. unfold conflicts in H.
+  destruct (Z.eqb_spec (fst r) (Z.of_N (m_version m))) as [E|E]; simpl in H; [|discriminate].
+  split; [exact E|exact H].
+Qed.
+
+Lemma plan_hits_conflict : forall o k rows ms,
+  ascending ms = true -> N.ltb k 4294967296 = true -> rows_within k rows = true -> versions_distinct rows = true ->
+  (exists m r, In m ms /\ In r rows /\ conflicts m r = true) ->
+  exists m r, In m ms /\ In r rows /\ conflicts m r = true /\
+    forall c i, i_res i = None ->
+      run_list [] o [] (plan o k (decode_ids rows) ms) (c, i) = (c, fail_run (IdMismatch (m_version m) (m_id m) (snd r)) i).
+Proof.
+  intros o k rows ms. induction ms as [|m0 ms IH]; intros Ha Hk Hw Hd [m [r [Hm [Hr Hc]]]]; [destruct Hm|].
+  assert (Hrange : forall r, In r rows -> (0 <= fst r < 4294967296)%Z).
+  { intros r0 Hr0. pose proof (rows_within_In _ _ _ Hw Hr0). apply N.ltb_lt in Hk. lia. }
+  simpl plan. destruct (id_check (decode_ids rows) m0) as [e|] eqn:Eid.
+  - (* the head migration trips the comparison *)
+    unfold id_check in Eid.
+    destruct (ids_get (m_version m0) (decode_ids rows)) as [db_id|] eqn:Eg; [|discriminate].
+    destruct (nonempty (m_id m0) && nonempty db_id && negb (String.eqb db_id (m_id m0)))%bool eqn:Ec; [|discriminate].
+    injection Eid as <-.
+    destruct (ids_get_decode _ _ _ Eg) as [r0 [Hr0 [Hu Hx]]].
+    pose proof (Hrange r0 Hr0) as Hz. rewrite i64_as_u32_small in Hu by lia.
+    exists m0, r0. split; [left; reflexivity|]. split; [exact Hr0|]. split.
+    + unfold conflicts. subst db_id. assert (Hv : Z.eqb (fst r0) (Z.of_N (m_version m0)) = true) by (apply Z.eqb_eq; lia).
+      rewrite Hv. simpl. exact Ec.
+    + intros c i Hi. subst db_id. simpl. rewrite Hi. reflexivity.
+  - (* the head agrees: the conflict is further down, and everything before it is already applied *)
+    destruct Hm as [<-|Hm].
+    + exfalso. destruct (conflicts_true _ _ Hc) as [Hv Hcond].
+      unfold id_check in Eid. unfold decode_ids in Eid.
+      assert (Hg : ids_get (m_version m0) (fold_left (fun acc r => (i64_as_u32 (fst r), snd r) :: acc) rows []) = Some (snd r)).
+      { rewrite <- (N2Z.id (m_version m0)). rewrite <- Hv. apply ids_get_fold_in; [exact Hd|exact Hrange|].
+        destruct r; exact Hr. }
+      rewrite Hg in Eid. rewrite Hcond in Eid. discriminate.
+    + destruct (conflicts_true _ _ Hc) as [Hv _].
+      pose proof (ascending_head_lt _ _ _ Ha Hm) as Hlt.
+      pose proof (rows_within_In _ _ _ Hw Hr) as Hb.
+      assert (Hng : N.ltb k (m_version m0) = false) by (apply N.ltb_ge; lia).
+      rewrite Hng.
+      destruct (IH (ascending_tail _ _ Ha) Hk Hw Hd (ex_intro _ m (ex_intro _ r (conj Hm (conj Hr Hc)))))
+        as [m1 [r1 [A [B [C D]]]]].
+      exists m1, r1. split; [right; exact A|]. split; [exact B|]. split; [exact C|exact D].
+Qed.
+
+Lemma versions_distinct_map_fst : forall r1 r2, map fst r1 = map fst r2 -> versions_distinct r1 = versions_distinct r2.
+Proof.
+  induction r1 as [|[a x] r1 IH]; intros [|[b y] r2] H; simpl in *; try discriminate; [reflexivity|].
+  injection H as H1 H2. subst. rewrite (has_version_map_fst _ _ _ H2), (IH _ H2). reflexivity.
+Qed.
+
+Theorem id_mismatch_reported : forall o ms k d,
+  ascending ms = true -> at_version k d = true -> versions_distinct (db_rows d) = true ->
+  id_conflict ms d = true ->
+  exists m r, In m ms /\ In r (db_rows (bootstrap d)) /\ conflicts m r = true /\
+    i_res (snd (run [] o ms d)) = Some (RErr (IdMismatch (m_version m) (m_id m) (snd r))) /\
+    txn_execs (i_log (snd (run [] o ms d))) = [] /\ fst (run [] o ms d) = bootstrap d.
+Proof.
+  intros o ms k d Ha Hat Hd Hc.
+  destruct (at_version_parts _ _ Hat) as [H1 _].
+  destruct (prelude_ok o k d Hat) as [rows [Hb [Hw Hp]]].
+  destruct (bootstrap_shape d) as [rows' [Hb' Hm]]. rewrite Hb in Hb'. injection Hb' as <-.
+  assert (Hd' : versions_distinct rows = true) by (rewrite (versions_distinct_map_fst _ _ Hm); exact Hd).
+  assert (Hex : exists m r, In m ms /\ In r rows /\ conflicts m r = true).
+  { unfold id_conflict in Hc. apply existsb_exists in Hc. destruct Hc as [m [Hm' Hc]].
+    apply existsb_exists in Hc. destruct Hc as [r [Hr Hc]]. exists m, r. rewrite Hb in Hr. auto. }
+  destruct (plan_hits_conflict o k rows ms Ha H1 Hw Hd' Hex) as [m [r [Hm' [Hr [Hcf Hrun]]]]].
+  exists m, r. split; [exact Hm'|]. split; [rewrite Hb; exact Hr|]. split; [exact Hcf|].
+  unfold run, run_from. rewrite Hp. simpl snd. simpl i_res. cbv iota. simpl i_ver. simpl i_ids.
+  rewrite Hrun by reflexivity. simpl. auto.
 Qed.
 
 (* ---------- C10 ---------- *)
@@ -530,10 +706,10 @@ Lemma plan_instrs : forall o ver ids ms x, In x (plan o ver ids ms) -> x <> ICre
 Proof.
   intros o ver ids ms. induction ms as [|m ms IH]; intros x Hx.
   - simpl in Hx. destruct Hx as [<-|[]]. split; discriminate.
-  - simpl in Hx. destruct (N.ltb ver (m_version m)); [|apply IH; exact Hx].
-    destruct (id_check ids m).
+  - simpl in Hx. destruct (id_check ids m).
     + destruct Hx as [<-|[]]. split; discriminate.
-    + apply in_app_or in Hx. destruct Hx as [Hx|[<-|Hx]].
+    + destruct (N.ltb ver (m_version m)); [|apply IH; exact Hx].
+      apply in_app_or in Hx. destruct Hx as [Hx|[<-|Hx]].
       * apply in_map_iff in Hx. destruct Hx as [s [<- _]]. split; discriminate.
       * split; discriminate.
       * apply IH; exact Hx.
@@ -591,18 +767,20 @@ Proof.
 Qed.
 
 Theorem rerun_completes : forall F o ms k d e,
-  ascending ms = true -> at_version k d = true ->
+  ascending ms = true -> at_version k d = true -> id_conflict ms d = false ->
   i_res (snd (run F o ms d)) = Some (RErr e) ->
   fst (run [] o ms (fst (run F o ms d))) = fst (run [] o ms d) /\
   i_res (snd (run [] o ms (fst (run F o ms d)))) = Some ROk.
 Proof.
-  intros F o ms k d e Ha Hk Herr.
-  destruct (run_from_k o ms k d Ha Hk) as [Hd _]. rewrite Hd.
+  intros F o ms k d e Ha Hk Hf Herr.
+  destruct (run_from_k o ms k d Ha Hk Hf) as [Hd _]. rewrite Hd.
   destruct (fail_leaves_db F o ms d e Herr) as [ -> | [ -> | -> ]].
-  - destruct (run_from_k o ms k d Ha Hk) as [H1 [H2 _]]. split; assumption.
-  - destruct (run_from_k o ms k _ Ha (at_version_create _ _ Hk)) as [H1 [H2 _]].
+  - destruct (run_from_k o ms k d Ha Hk Hf) as [H1 [H2 _]]. split; assumption.
+  - assert (Hf' : id_conflict ms (sql_create_vt d) = false) by (rewrite id_conflict_create; exact Hf).
+    destruct (run_from_k o ms k _ Ha (at_version_create _ _ Hk) Hf') as [H1 [H2 _]].
     rewrite H1, advanced_create. split; [reflexivity|exact H2].
-  - destruct (run_from_k o ms k _ Ha (at_version_bootstrap _ _ Hk)) as [H1 [H2 _]].
+  - assert (Hf' : id_conflict ms (bootstrap d) = false) by (rewrite id_conflict_bootstrap; exact Hf).
+    destruct (run_from_k o ms k _ Ha (at_version_bootstrap _ _ Hk) Hf') as [H1 [H2 _]].
     rewrite H1, advanced_bootstrap. split; [reflexivity|exact H2].
 Qed.
 
